@@ -73,22 +73,31 @@ Proof. exact fq_code_top. Qed.
 (* --- ranges of the stored activations *)
 Theorem C14_match_range : forall p' scale addb sh acc, (0 <= match_requant (S p') scale addb sh acc <= pow2 (S p') - 1)%Z.
 Proof. exact match_requant_range. Qed.
-Theorem C14_maupiti_range : forall p' scale addb sumw sh acc,
-  (- pow2 p' <= maupiti_requant (S p') scale addb sumw sh acc <= pow2 p' - 1)%Z.
-Proof. exact maupiti_requant_range. Qed.
+Theorem C14_maupiti_range : forall pi po' scale addb sumw sh acc,
+  (- pow2 po' <= maupiti_requant2 pi (S po') scale addb sumw sh acc <= pow2 po' - 1)%Z.
+Proof. exact maupiti_requant2_range. Qed.
 
-(* --- MAUPITI: offset-signed form = unsigned form - 2^(p-1) when the input offset is the output offset;
-   in general the layer behaves as if (z_out - z_in) * sum(W) were added to the accumulator *)
-Theorem C14_maupiti_offset_equiv : forall p' scale addb sumw sh (acc : Q),
-  let p := S p' in let z := pow2 p' in
-  maupiti_requant p scale addb sumw sh (acc - inject_Z z * inject_Z sumw) = (match_requant p scale addb sh acc - z)%Z.
-Proof. exact maupiti_offset_equiv. Qed.
+(* --- MAUPITI: offset-signed form = unsigned form - 2^(p_out-1), for ANY input precision p_in (the stored input is
+   the unsigned code minus 2^(p_in-1)) and output precision p_out: repaired code (in_offset from the input precision) *)
+Theorem C14_maupiti_offset_equiv : forall pi' po' scale addb sumw sh (acc : Q),
+  maupiti_requant2 (S pi') (S po') scale addb sumw sh (acc - inject_Z (pow2 pi') * inject_Z sumw)
+  = (match_requant (S po') scale addb sh acc - pow2 po')%Z.
+Proof. exact maupiti2_offset_equiv. Qed.
+Theorem C14_maupiti_same_precision : forall p scale addb sumw sh acc,
+  maupiti_requant2 p p scale addb sumw sh acc = maupiti_requant p scale addb sumw sh acc.
+Proof. exact maupiti2_same_precision. Qed.
 
+(* pinned upstream form (both offsets taken from the output precision): with an input offset z_in the layer behaves
+   as if (z_out - z_in) * sum(W) were added to the accumulator; wrong as soon as the precisions differ *)
 Theorem C14_maupiti_offset_general : forall p' scale addb sumw sh (z_in : Z) (acc : Q),
   let p := S p' in let z := pow2 p' in
   maupiti_requant p scale addb sumw sh (acc - inject_Z z_in * inject_Z sumw)
   = (match_requant p scale addb sh (acc + inject_Z (z - z_in) * inject_Z sumw) - z)%Z.
 Proof. exact maupiti_offset_general. Qed.
+Theorem C14_upstream_maupiti_mixed_refuted : exists pi' po' scale addb sumw sh (acc : Q),
+  maupiti_requant (S po') scale addb sumw sh (acc - inject_Z (pow2 pi') * inject_Z sumw)
+  <> (match_requant (S po') scale addb sh acc - pow2 po')%Z.
+Proof. exact upstream_maupiti_mixed_refuted. Qed.
 
 (* accumulating offset inputs; the padding value -2^(p-1) is the offset image of an unsigned 0 *)
 Theorem C14_offset_accumulator : forall z ws xs, length ws = length xs ->
@@ -108,6 +117,13 @@ Theorem C14_last_layer_maupiti : forall z_in scale B sumw sh sx sw (acc : Q),
   qabs (maupiti_last z_in scale (B * scale) sumw sh (acc - inject_Z z_in * inject_Z sumw) - fq_real sx sw B acc)
     == qabs (acc + inject_Z B) * qabs (inject_Z scale / qpow2 sh - sw * sx).
 Proof. exact last_layer_maupiti_both. Qed.
+
+(* MAUPITI output layer as a window (Linear row, or Conv2d at one output position; padded positions are unsigned 0,
+   stored as the padding value -z_in) *)
+Theorem C14_last_layer_maupiti_conv : forall z_in scale B sh ws xs, length ws = length xs ->
+  maupiti_last z_in scale (B * scale) (zsum ws) sh (inject_Z (zdot ws (map (fun x => x - z_in)%Z xs)))
+  == (inject_Z scale / qpow2 sh) * (inject_Z (zdot ws xs) + inject_Z B).
+Proof. exact last_layer_maupiti_window. Qed.
 
 (* --- dilation-to-padding of a kernel along the dilated axis *)
 Theorem C14_dilated_kernel_equiv : forall d ws x, (1 <= d)%nat -> forall off,
@@ -131,7 +147,7 @@ Example C14_example_approx :
 Proof. vm_compute. repeat split. Qed.
 Example C14_example_requant :
   match_requant 4 8988 (1000 * 8988) 21 500 = 6%Z /\ match_requant 4 8988 0 21 (-3) = 0%Z /\ match_requant 4 8988 0 21 100000 = 15%Z /\
-  maupiti_requant 4 8988 (1000 * 8988) 7 21 (500 - 8 * 7) = (6 - 8)%Z /\
+  maupiti_requant2 2 4 8988 (1000 * 8988) 7 21 (500 - 2 * 7) = (6 - 8)%Z /\
   fq_code 4 6 (6001 # 15000) (3 # 700) 1000 500 = 6%Z /\ dilate 3 [1; 2; 3]%Z = [1; 0; 0; 2; 0; 0; 3]%Z.
 Proof. vm_compute. repeat split. Qed.
 
@@ -146,11 +162,14 @@ Print Assumptions C14_fq_code_top.
 Print Assumptions C14_match_range.
 Print Assumptions C14_maupiti_range.
 Print Assumptions C14_maupiti_offset_equiv.
+Print Assumptions C14_maupiti_same_precision.
 Print Assumptions C14_maupiti_offset_general.
+Print Assumptions C14_upstream_maupiti_mixed_refuted.
 Print Assumptions C14_offset_accumulator.
 Print Assumptions C14_pad_value.
 Print Assumptions C14_last_layer_match.
 Print Assumptions C14_last_layer_maupiti.
+Print Assumptions C14_last_layer_maupiti_conv.
 Print Assumptions C14_dilated_kernel_equiv.
 Print Assumptions C14_dilated_kernel_length.
 Print Assumptions C14_upstream_dilation_axis1_refuted.
